@@ -209,11 +209,9 @@ def run(chk, tier, scale=1.0):
                          leaks=True, shrink=False, want_sample=(i < 2)))
     # requests that grow old (more than ten seconds pending; statistics then list them one by one) and are withdrawn afterwards:
     # two idle runs in the background, without a request timeout and with a long one
-    from concurrent.futures import ThreadPoolExecutor
     from checks import c09
-    old_pool = ThreadPoolExecutor(4)
-    old_futs = [old_pool.submit(c09._old_requests_worker, dict(build=b, seed=chk.seed * 13 + k, n=4, timeout=[None, 3600, 0][k % 3], leaks=True, then_withdraw=True, props=PROPS))
-                for k in range(2 if tier == "quick" else 6)]
+    old_bg = vcommon.Background(c09._old_requests_worker, [dict(build=b, seed=chk.seed * 13 + k, n=4, timeout=[None, 3600, 0][k % 3], leaks=True, then_withdraw=True, props=PROPS)
+                                                           for k in range(2 if tier == "quick" else 6)], nproc=6)
     res = vcommon.pmap(prun.hist_worker, jobs)
     prun.fold(chk, "C10", res, crash_is_violation=True)
     for rs in vcommon.pmap(pcommon.script_worker, pcommon.collision_jobs(b, chk.seed, PROPS, int((120 if tier == "quick" else 3000) * scale))):
@@ -228,8 +226,7 @@ def run(chk, tier, scale=1.0):
     prun.fold(chk, "C10", tres, crash_is_violation=True)
     prun.fold(chk, "C10", vcommon.pmap(timeout_switch_worker, [dict(build=b, seed=chk.seed * 17 + k, up=(k % 2 == 0)) for k in range(4 if tier == "quick" else 32)]),
               crash_is_violation=True)
-    ores = [f.result() for f in old_futs]
-    old_pool.shutdown()
+    ores = old_bg.results()
     prun.fold(chk, "C10", ores, crash_is_violation=True)
     chk.require("old_request_lines", 3)
     chk.count("clean_exits_with_leak_check", len(res) + len(lres) + len(tres) - chk.observed.get("daemon_unclean", 0))
